@@ -1037,6 +1037,18 @@ func impliesFalse(c *core.Ctx, fn *ssa.Function, v ssa.Value) (bool, string) {
 
 // impliesResult: the same for v = val (val=true: "v true ⇒ result false").
 func impliesResult(c *core.Ctx, fn *ssa.Function, v ssa.Value, val bool) (bool, string) {
+	// (the verdict of a helper that answers `(bool, error)`: its first result)
+	if call, isCall := v.(*ssa.Call); isCall {
+		if tup, isT := call.Type().(*types.Tuple); isT && tup.Len() >= 1 && call.Referrers() != nil {
+			if bt, isB := tup.At(0).Type().Underlying().(*types.Basic); isB && bt.Kind() == types.Bool {
+				for _, r := range *call.Referrers() {
+					if ex, isEx := r.(*ssa.Extract); isEx && ex.Index == 0 {
+						v = ex
+					}
+				}
+			}
+		}
+	}
 	fr := an.NoSubject()
 	fr.Assume = map[ssa.Value]bool{v: val}
 	vb := v.(ssa.Instruction).Block()
